@@ -3,6 +3,7 @@ import OxyModel.Props.C10
 #print axioms C10.C10_servable
 #print axioms C10.C10_once_per_backoff
 #print axioms C10.C10_outlier_share_not_up
+#print axioms C10.C10_outlier_means_mixed
 #print axioms C10.C10_membership_restores
 #print axioms C10.C10_timer_bound
 #print axioms C10.C10_outlier_loses
